@@ -75,14 +75,28 @@ pub fn record_templates(profile: &Profile, tls: bool) -> Vec<Template> {
     let frames = frames.lock().unwrap().clone();
     let mut out: Vec<Template> = Vec::new();
     for ((k, i), (_, f)) in inner.into_iter().zip(frames.into_iter()) {
-        let occ = out.iter().filter(|t| t.kind == k).count();
-        out.push(Template { kind: k, occ, inner: i, frame: f });
+        out.push(Template { kind: k, occ: 0, inner: i, frame: f });
+    }
+    // canonical order and occurrence numbers: messages of one kind are ordered by their bytes, not by the order in
+    // which this particular process happened to ask for them
+    let first: Vec<String> = out.iter().fold(Vec::new(), |mut v, t| {
+        if !v.contains(&t.kind) {
+            v.push(t.kind.clone());
+        }
+        v
+    });
+    out.sort_by(|a, b| first.iter().position(|k| *k == a.kind).cmp(&first.iter().position(|k| *k == b.kind)).then(a.inner.v.cmp(&b.inner.v)));
+    for i in 0..out.len() {
+        out[i].occ = out[..i].iter().filter(|t| t.kind == out[i].kind).count();
     }
     out
 }
 
 #[derive(Clone)]
 pub struct Plan {
+    /// hash of the unfaulted message (inner or frame bytes, by layer) the fault replaces: the client sends its channel
+    /// joins in hash-map order, so "the n-th message of this kind" is not the same message in every process
+    pub orig: u64,
     pub profile: usize,
     pub tls: bool,
     pub kind: String,
@@ -93,15 +107,16 @@ pub struct Plan {
 
 impl Plan {
     pub fn to_json(&self) -> Value {
-        json!({"profile": self.profile, "tls": self.tls, "kind": self.kind, "occ": self.occ, "layer": self.layer, "class": self.mutant.class, "at": self.mutant.at, "bytes": hex(&self.mutant.bytes)})
+        json!({"orig": self.orig, "profile": self.profile, "tls": self.tls, "kind": self.kind, "occ": self.occ, "layer": self.layer, "class": self.mutant.class, "at": self.mutant.at, "bytes": hex(&self.mutant.bytes)})
     }
     pub fn from_json(v: &Value) -> Plan {
         Plan {
+            orig: v["orig"].as_u64().unwrap_or(0),
             profile: v["profile"].as_u64().unwrap_or(0) as usize,
             tls: v["tls"].as_bool().unwrap_or(false),
             kind: v["kind"].as_str().unwrap_or("").to_string(),
             occ: v["occ"].as_u64().unwrap_or(0) as usize,
-            layer: if v["layer"] == "frame" { "frame" } else { "inner" },
+            layer: if v["layer"] == "frame" { "frame" } else if v["layer"] == "inner+close" { "inner+close" } else { "inner" },
             mutant: Mutant { class: v["class"].as_str().unwrap_or("").to_string(), bytes: unhex(v["bytes"].as_str().unwrap_or("")), at: v["at"].as_u64().unwrap_or(0) as usize },
         }
     }
@@ -111,21 +126,26 @@ impl Plan {
 pub fn install(d: &Duplex, plan: &Plan) {
     let kind = plan.kind.clone();
     let occ = plan.occ;
+    let orig = plan.orig;
     let bytes = plan.mutant.bytes.clone();
     let mut seen = 0usize;
-    let hook = Box::new(move |k: &str, _b: &B| {
-        if k == kind {
-            let hit = seen == occ;
+    let mut done = false;
+    let hook = Box::new(move |k: &str, b: &B| {
+        if k == kind && !done {
+            // by content when the plan names the message it replaces, else by occurrence (old replay files)
+            let hit = if orig != 0 { fnv(&b.v) == orig } else { seen == occ };
             seen += 1;
             if hit {
+                done = true;
                 return Some(bytes.clone());
             }
         }
         None
     });
     d.with(|s| {
-        if plan.layer == "inner" {
+        if plan.layer == "inner" || plan.layer == "inner+close" {
             s.inner_hook = Some(hook);
+            s.close_after_fault = plan.layer == "inner+close";
         } else {
             s.frame_hook = Some(hook);
         }
@@ -213,7 +233,15 @@ fn all_plans(seed: u64, quick: bool, profs: &[Profile]) -> Vec<Plan> {
                     if *tls && !m.class.starts_with("bound") && !m.class.starts_with("truncate") && !m.class.starts_with("remove") && r.chance(3, 4) {
                         continue;
                     }
-                    plans.push(Plan { profile: pi, tls: *tls, kind: t.kind.clone(), occ: t.occ, layer: "inner", mutant: m });
+                    if *tls && m.class.starts_with("truncate") {
+                        // the same cut, after which the server ends the TLS session in an orderly way (close_notify)
+                        plans.push(Plan { orig: fnv(&t.inner.v), profile: pi, tls: true, kind: t.kind.clone(), occ: t.occ, layer: "inner+close", mutant: m.clone() });
+                    }
+                    plans.push(Plan { orig: fnv(&t.inner.v), profile: pi, tls: *tls, kind: t.kind.clone(), occ: t.occ, layer: "inner", mutant: m });
+                }
+                if *tls {
+                    // the whole message, then close_notify
+                    plans.push(Plan { orig: fnv(&t.inner.v), profile: pi, tls: true, kind: t.kind.clone(), occ: t.occ, layer: "inner+close", mutant: Mutant { class: "valid-then-close-notify".into(), bytes: t.inner.v.clone(), at: t.inner.v.len() } });
                 }
                 if !*tls {
                     // blind pokes on the final frame: only the wrapping layers' own fields (TPKT, X.224, MCS, BER)
@@ -221,7 +249,7 @@ fn all_plans(seed: u64, quick: bool, profs: &[Profile]) -> Vec<Plan> {
                     wrap_only.v = t.frame.v.clone();
                     wrap_only.fields = t.frame.fields.iter().filter(|f| !f.name.contains(".c.") && !f.name.contains(".d.") && !f.name.contains("gcc.") || f.name.contains("ber.")).cloned().collect();
                     for m in fault::single_faults(&wrap_only, &mut r, true) {
-                        plans.push(Plan { profile: pi, tls: false, kind: t.kind.clone(), occ: t.occ, layer: "frame", mutant: m });
+                        plans.push(Plan { orig: fnv(&t.frame.v), profile: pi, tls: false, kind: t.kind.clone(), occ: t.occ, layer: "frame", mutant: m });
                     }
                 }
             }
@@ -248,7 +276,7 @@ fn pair_plans(seed: u64, profs: &[Profile], n: u64) -> Vec<Plan> {
                 continue;
             }
             if let Some(m) = fault::pair_fault(&t.inner, &sub, i, j) {
-                plans.push(Plan { profile: 0, tls: false, kind: t.kind.clone(), occ: t.occ, layer: "inner", mutant: m });
+                plans.push(Plan { orig: fnv(&t.inner.v), profile: 0, tls: false, kind: t.kind.clone(), occ: t.occ, layer: "inner", mutant: m });
             }
         }
     }
@@ -356,7 +384,7 @@ fn hostile_variants() -> Vec<(String, Profile)> {
 fn run_variant(variants: &[(String, Profile)], idx: u64, rep: &mut Report) {
     let (name, prof) = &variants[(idx / 2) as usize];
     let tls = idx % 2 == 1;
-    let plan = Plan { profile: 0, tls, kind: "none".into(), occ: 0, layer: "inner", mutant: Mutant { class: format!("value:{}", name), bytes: vec![], at: 0 } };
+    let plan = Plan { orig: 0, profile: 0, tls, kind: "none".into(), occ: 0, layer: "inner", mutant: Mutant { class: format!("value:{}", name), bytes: vec![], at: 0 } };
     let o = run_plan(&plan, std::slice::from_ref(prof));
     rep.nontrivial(fnv(name.as_bytes()) ^ idx);
     rep.set("hostile_values", name.split('=').next().unwrap_or("").to_string());
@@ -429,7 +457,7 @@ pub fn run(cfg: &Cfg) -> Report {
             let o2 = &ts[r.below(ts.len() as u64) as usize];
             let layer = if r.chance(1, 3) { "frame" } else { "inner" };
             let m = if layer == "frame" { fault::random_fault(&t.frame, Some(&o2.frame), &mut r) } else { fault::random_fault(&t.inner, Some(&o2.inner), &mut r) };
-            let plan = Plan { profile: pi, tls: false, kind: t.kind.clone(), occ: t.occ, layer, mutant: m };
+            let plan = Plan { orig: fnv(if layer == "frame" { &t.frame.v } else { &t.inner.v }), profile: pi, tls: false, kind: t.kind.clone(), occ: t.occ, layer, mutant: m };
             let o = run_plan(&plan, &profs);
             if o.consumed_fault {
                 rep.nontrivial(fnv(&plan.mutant.bytes) ^ idx);
